@@ -685,6 +685,9 @@ def main():
         cases.append((label, A, b, "nnls_normal_block", 1, "default"))
         cases.append((label, A, b, "nnls_normal_block_updown", 1, ("default", "updates", "recompute")[(q + 2) % 3]))
         cases.append((label, A, b, "nnls_lawson_hanson", 1, "default"))
+        if thorough or q % 4 == 1 or label.startswith("found-"):
+            for sg in ("/noise+", "/noise-"):
+                cases += [(label, A, b, "nnls_normal_block", 1, "default" + sg), (label, A, b, "nnls_normal_block_updown", 1, ("default", "updates", "recompute")[(q + 2) % 3] + sg), (label, A, b, "nnls_lawson_hanson", 1, "default" + sg)]
         if label in MY and (thorough or q % 2): cases.append((label, A, b, "nnls_lawson_hanson/ls", 1, "default"))
     t0 = time.time()
     scases = [(label, A, b, 2 + q % 3, ("default", "updates", "recompute")[q % 3]) for q, (label, A, b) in enumerate(sysl) if thorough or q % 3 == 0 or label.startswith("found-")]
@@ -775,7 +778,7 @@ def main():
                "cholmod (submatrix, sdmult, drop, analyze, factorize, rowadd, rowdel, solve) and SuiteSparseQR's backslash (least-squares solution of a full-column-rank system) are an assumed contract: exact sparse algebra, a factor is the factorisation of its matrix",
                "recompute_factor and get_column run as written: a cholmod_factor is a simplicial LDL' factorisation kept in the arrays (p, i, x, nz, next, ColCount, Perm) that recompute_factor reads and writes, a cholmod_sparse carries its compressed-column arrays; cholmod's own operations on them (analyze, analyze_p, factorize, change_factor, reallocate_column, rowadd, rowdel, solve) are the assumed contract",
                "the worker threads of walk_descents are run to completion one after the other when the coordinator waits (protocol: C12)",
-               "machine arithmetic treated as mathematical: every decision of the solvers is taken on exact rationals; rounding and conditioning are not modelled, except that nnls_normal_block3 is also run with noise of size 2^-53 * |operand| and either sign at every exact cancellation (a test of robustness, not a model of IEEE arithmetic)",
+               "machine arithmetic treated as mathematical: every decision of the solvers is taken on exact rationals; rounding and conditioning are not modelled, except that every solver is also run with noise of size 2^-53 * |operand| and either sign at every exact cancellation (a test of robustness, not a model of IEEE arithmetic)",
                "qsort: the comparator of the source is called on the elements; intcmp reads long elements through int pointers (values < 2^31)",
                "termination is decided only for the enumerated systems (step limit of the interpreter; the solver's own iteration cap is visible as a KKT failure)")
     rep.trust("tools/gotoexec.py", "goto-cc front end", "fractions.Fraction")
